@@ -75,6 +75,7 @@ def gen_probe(rng, nc=None, nt=None, ns=3, pcw=2, tfw=2, **o):
         'wmi': mat(nc) if o.get('wmi', False) else None,
         'sim': mat(nt) if o.get('sim', True) else None,
         'ncd': ncd, 'rate': o.get('rate', 30000.0), 'offset': o.get('offset', rng.choice([0, 0, 7])),
+        'rate_lit': o.get('rate_lit', 'float'),
     }
     return p
 
@@ -109,7 +110,7 @@ def materialise(inp, base):
             np.save(os.path.join(d, 'similar_templates.npy'), np.array(p['sim'], dtype='float32').reshape(nt, nt))
         with open(os.path.join(d, 'params.py'), 'w') as f:
             f.write("dat_path = ['raw%d.dat']\nn_channels_dat = %d\ndtype = 'int16'\noffset = %d\n"
-                    "sample_rate = %r\nhp_filtered = False\n" % (k, p['ncd'], p['offset'], float(p['rate'])))
+                    "sample_rate = %s\nhp_filtered = False\n" % (k, p['ncd'], p['offset'], rate_literal(p)))
         # spike side (read unconditionally by the spike methods of Merger)
         st = np.array(spike_templates(p), dtype='uint32')
         nspk = len(st)
@@ -119,6 +120,15 @@ def materialise(inp, base):
         np.save(os.path.join(d, 'amplitudes.npy'), np.ones(nspk, dtype='float64'))
         subdirs.append(d)
     return subdirs
+
+
+def rate_literal(p):
+    """The text of the sampling rate in the probe's params.py: repr of the float (round-trips exactly), or an int
+    literal when the probe asks for one and the rate is integer-valued."""
+    r = float(p['rate'])
+    if p.get('rate_lit') == 'int' and r == int(r):
+        return '%d' % int(r)
+    return repr(r)
 
 
 def spike_templates(p):
